@@ -120,8 +120,12 @@ func FileUtilsRead(file *os.File, offset int64) (*RecordHead, *RecordBody, error
 	}
 
 	heaBuf := make([]byte, RecordHeadLength)
-	_, err = file.Read(heaBuf)
+	_, err = io.ReadFull(file, heaBuf)
 	if err != nil {
+		// a head which is cut off is the end of file too
+		if err == io.ErrUnexpectedEOF {
+			err = io.EOF
+		}
 		return nil, nil, err
 	}
 
@@ -136,9 +140,16 @@ func FileUtilsRead(file *os.File, offset int64) (*RecordHead, *RecordBody, error
 	}
 
 	bodyBuf := make([]byte, head.Len)
-	_, err = file.Read(bodyBuf)
+	_, err = io.ReadFull(file, bodyBuf)
 	if err != nil {
+		// the record is not written completely
+		if err == io.ErrUnexpectedEOF {
+			err = ErrRecordBroken
+		}
 		return nil, nil, err
+	}
+	if CheckSum(bodyBuf) != head.Crc {
+		return nil, nil, ErrRecordBroken
 	}
 
 	var body RecordBody
